@@ -109,13 +109,18 @@ func VerifC01_InitiatorSignals() {
 	zz.Assume(channels.VerifInitiatorInv(st.Status, F, R, L))
 	zz.Assume(!channels.IsChannelTerminated(st.Status))
 	ctx := context.Background()
-	switch zz.Choice("stim", 5) {
+	stim := zz.Choice("stim", 6)
+	switch stim {
 	case 0:
 		_ = f.m.OnChannelCompleted(chid, nil)
 		F = true
 		if st.Status == datatransfer.AwaitingAcceptance {
 			L = true
 		}
+	case 5:
+		// the own transport ends WITH AN ERROR: that is not "finished" - F stays as it was
+		_ = f.m.OnChannelCompleted(chid, zz.Error("transportErr"))
+		zz.Reach("own transport failed")
 	case 1:
 		resp := verifArbitraryResponse("resp")
 		zz.SetInt(&resp.TransferId, uint64(chid.ID))
@@ -141,6 +146,13 @@ func VerifC01_InitiatorSignals() {
 	}
 	zz.Settle()
 	post := f.g.VerifPeek(chid)
+	if stim == 5 {
+		// a failure flow: the channel may fail, but it must not succeed on a failed transport
+		if post.Status == datatransfer.Completing || post.Status == datatransfer.Completed {
+			zz.Assert((F && R) || L, "a failed own transport never completes the channel")
+		}
+		return
+	}
 	zz.Assert(channels.VerifInitiatorInv(post.Status, F, R, L), "Completed only after both the own transport finished and the responder's final Complete")
 	if post.Status == datatransfer.Completed {
 		zz.Reach("completed")
@@ -170,3 +182,10 @@ func VerifC01_RestartKeepsStoreConfiguration() {
 		VerifC10_InitiatorRestart()
 	}
 }
+
+// VerifC01_CleaningUpChannelSettlesAfterRestart: "transfers that were interrupted and healed by a
+// restart": a node that went down after sending / receiving the final Complete but before its
+// cleanup finished (record persisted in Completing - or Cancelling / Failing) settles in the
+// terminal status when the channel is restarted, so both ends agree (same body as
+// VerifC10_CleanupOnly; the clause belongs to C01, C06, C09 and C10).
+func VerifC01_CleaningUpChannelSettlesAfterRestart() { VerifC10_CleanupOnly() }
